@@ -79,7 +79,8 @@ class FileSystem(SimComponent):
         self._create_manager = RequestManager()
 
         def _create_file_action(request: List[Any], context: Any) -> RequestResponse:
-            if not request[2] and self.get_file(folder_name=request[0], file_name=request[1]) is not None:
+            # (an empty folder name means the root folder, as in create_file)
+            if not request[2] and self.get_file(folder_name=request[0] or "root", file_name=request[1]) is not None:
                 return RequestResponse(
                     status="failure", data={"reason": f"File {request[0]}/{request[1]} already exists."}
                 )
